@@ -186,6 +186,25 @@ type InlineFolder struct {
 	Z []string
 }
 
+// Two outer types inlining the same pointer, map, struct and interface types:
+// whatever an iterator caches per inlined type is shared between them.
+type InlinePtrA struct {
+	ID    int
+	Inner *Inner `struct:",inline"`
+}
+
+type InlinePtrB struct {
+	Name  string
+	Inner *Inner                 `struct:",inline"`
+	M     map[string]interface{} `struct:",inline"`
+}
+
+type InlineValB struct {
+	Inner Inner       `struct:",inline"`
+	I     interface{} `struct:",inline"`
+	Tail  string
+}
+
 type OmitAll struct {
 	S string            `struct:"s,omitempty"`
 	L []int             `struct:"l,omitempty"`
@@ -719,6 +738,26 @@ var Catalogue = []TypeEntry{
 		}
 		return v
 	})),
+	foldOnly(mk("InlinePtrA", true, func(c *simkit.Choices) InlinePtrA {
+		i := genInner(c)
+		return InlinePtrA{ID: c.N(100), Inner: &i}
+	})),
+	foldOnly(mk("InlinePtrB", true, func(c *simkit.Choices) InlinePtrB {
+		i := genInner(c)
+		return InlinePtrB{Name: genStr(c), Inner: &i, M: map[string]interface{}{"m." + GenKey(c, 8): genIfc(c, 1)}}
+	})),
+	foldOnly(mk("InlineValB", true, func(c *simkit.Choices) InlineValB {
+		v := InlineValB{Inner: genInner(c), Tail: genStr(c)}
+		switch c.N(3) {
+		case 0:
+			v.I = map[string]interface{}{"i." + GenKey(c, 8): genIfc(c, 1)}
+		case 1:
+			v.I = map[string]string{"i." + GenKey(c, 8): genStr(c)}
+		default:
+			v.I = map[string]int{"i." + GenKey(c, 8): c.N(100)}
+		}
+		return v
+	})),
 	foldOnly(mk("InlineFolder", true, func(c *simkit.Choices) InlineFolder {
 		return InlineFolder{A: genStr(c), T: Labels(genMap(c, genStr)), Z: genSlice(c, genStr)}
 	})),
@@ -791,7 +830,9 @@ var Catalogue = []TypeEntry{
 	}),
 	mk("NamedFields", true, func(c *simkit.Choices) NamedFields {
 		nf := NamedFields{IDs: NamedSlice(genSlice(c, func(c *simkit.Choices) int { return c.N(100) })), Labels: NamedMap(genMap(c, genStr)),
-			LL: genSlice(c, func(c *simkit.Choices) NamedSlice { return NamedSlice(genSlice(c, func(c *simkit.Choices) int { return c.N(9) })) })}
+			LL: genSlice(c, func(c *simkit.Choices) NamedSlice {
+				return NamedSlice(genSlice(c, func(c *simkit.Choices) int { return c.N(9) }))
+			})}
 		if c.Bool() {
 			p := NamedSlice{1, 2, c.N(5)}
 			nf.P = &p
@@ -799,7 +840,9 @@ var Catalogue = []TypeEntry{
 		return nf
 	}),
 	mk("[]NamedSlice", false, func(c *simkit.Choices) []NamedSlice {
-		return genSlice(c, func(c *simkit.Choices) NamedSlice { return NamedSlice(genSlice(c, func(c *simkit.Choices) int { return c.N(9) })) })
+		return genSlice(c, func(c *simkit.Choices) NamedSlice {
+			return NamedSlice(genSlice(c, func(c *simkit.Choices) int { return c.N(9) }))
+		})
 	}),
 	mk("WrapPtr", true, func(c *simkit.Choices) WrapPtr {
 		if c.N(4) == 0 {
@@ -808,7 +851,9 @@ var Catalogue = []TypeEntry{
 		n := int64(c.N(5)) - 1
 		return WrapPtr{WrapPtr1{&n}}
 	}),
-	mk("WrapMap", true, func(c *simkit.Choices) WrapMap { return WrapMap{WrapMap1{genMap(c, func(c *simkit.Choices) int { return c.N(3) })}} }),
+	mk("WrapMap", true, func(c *simkit.Choices) WrapMap {
+		return WrapMap{WrapMap1{genMap(c, func(c *simkit.Choices) int { return c.N(3) })}}
+	}),
 	mk("WrapStr", true, func(c *simkit.Choices) WrapStr {
 		if c.N(4) == 0 {
 			return WrapStr{}
@@ -948,10 +993,11 @@ var families = map[string][]string{
 	"kv":     {"OrderedKV", "WithKV", "map[string]string", "Strs"},
 	"folder": {"WithFolder", "InlineFolder", "InlineIfc", "InlineMap", "InlineTyped", "map[string]interface{}"},
 	"local":  {"local-A.record", "local-B.record"},
+	"inline": {"InlinePtrA", "InlinePtrB", "InlineValB", "InlineIfc", "InlineMap", "Inline2", "Inner", "[]*Inner"},
 	"ifc":    {"interface{}", "[]interface{}", "map[string]interface{}", "[]map[string]interface{}", "Strs", "Tagged"},
 }
 
-var familyNames = []string{"wrap", "packed", "inner", "named", "score", "simple", "kv", "folder", "local", "ifc"}
+var familyNames = []string{"wrap", "inline", "packed", "inner", "named", "score", "simple", "kv", "folder", "local", "ifc"}
 
 // PickRelated draws n types; half of the time all from one family (types
 // that contain each other), else independently.
